@@ -35,6 +35,7 @@ type Engine struct {
 	GhostFields map[string]string
 	Census      []*spec.Census
 	Regexes     []*RegexDecl
+	Structs     []*StructDecl
 	guards      map[string]*guardInfo
 	monitors    map[string][]*spec.Monitor
 	pendGuards  []*spec.Guard
@@ -176,6 +177,9 @@ func (e *Engine) addFile(sf *spec.File, pkg *types.Package) {
 		}
 	}
 	e.Census = append(e.Census, sf.Census...)
+	for _, s := range sf.Structs {
+		e.Structs = append(e.Structs, &StructDecl{Kind: s.Kind, Args: s.Args, Props: s.Props, Pkg: s.Pkg, File: s.File, Line: s.Line})
+	}
 	for _, r := range sf.Regexes {
 		e.Regexes = append(e.Regexes, &RegexDecl{Global: r.Global, Spec: r.Spec, Props: r.Props, Pkg: r.Pkg, File: r.File, Line: r.Line})
 	}
